@@ -49,6 +49,45 @@ func vblockBoundaries(data []byte) []int {
 	}
 }
 
+// where, in an undamaged stream, the header of each entry block keeps "<+2> CheckSum <+2> Data"
+type vsumField struct{ sumDelta, dataDelta, dataAt, end int }
+
+func vgobUint(x uint64) []byte {
+	if x < 128 {
+		return []byte{byte(x)}
+	}
+	var raw [8]byte
+	for i := 0; i < 8; i++ {
+		raw[i] = byte(x >> (8 * (7 - i)))
+	}
+	n := 0
+	for raw[n] == 0 {
+		n++
+	}
+	return append([]byte{byte(-(8 - n))}, raw[n:]...)
+}
+
+func vchecksumFields(data []byte) []vsumField {
+	rd := bytes.NewReader(data)
+	dec := gob.NewDecoder(rd)
+	var out []vsumField
+	start := 0
+	for {
+		block := &DataBlock[any]{}
+		if err := dec.Decode(block); err != nil {
+			return out
+		}
+		end := len(data) - rd.Len()
+		if block.Type >= 2 && block.Type <= 4 && block.CheckSum != 0 && len(block.Data) > 0 {
+			pat := append(append([]byte{2}, vgobUint(block.CheckSum)...), 2)
+			if at := bytes.Index(data[start:end], pat); at >= 0 && bytes.Count(data[start:end], pat) == 1 {
+				out = append(out, vsumField{start + at, start + at + len(pat) - 1, start + at + len(pat), end})
+			}
+		}
+		start = end
+	}
+}
+
 func vfeedBlocks(tr *vtrace, data []byte) {
 	dec := gob.NewDecoder(bytes.NewReader(data))
 	block := &DataBlock[any]{}
@@ -233,6 +272,12 @@ func TestVerifPersist(t *testing.T) {
 			if shrunkWindow {
 				cost, ttl = 1, 0 // unit costs, nothing expires: the enlarged protected region fills to its last unit
 			}
+			if shrunk {
+				cost = 1 // nothing is evicted while the cache fills ...
+				if i < 60 {
+					ttl = 0 // ... and the hot set that remains does not expire: 60 keys * frequency 15 = 900 > the 640 of a 64-word sketch
+				}
+			}
 			src.Set(i, i*7+1, cost, ttl)
 			vdrainWrites(src)
 			if r.chance(40) {
@@ -271,6 +316,17 @@ func TestVerifPersist(t *testing.T) {
 				}
 				saved = append(saved, sv)
 			}
+		}
+		{
+			sumf, maxf := 0, 0
+			for _, sv := range saved {
+				sumf += sv.freq
+				if sv.freq > maxf {
+					maxf = sv.freq
+				}
+			}
+			tr.comment(fmt.Sprintf("stream %d: MaxSize %d, %d entries saved, saved frequencies sum %d max %d, sketch table %d words (sample period %d), shrunk-cache %v shrunk-window %v zero-costs %v",
+				c, size, len(saved), sumf, maxf, len(src.policy.sketch.Table), src.policy.sketch.SampleSize, shrunk, shrunkWindow, zeroCosts))
 		}
 		version := uint64(r.intn(5))
 		var buf bytes.Buffer
@@ -374,6 +430,28 @@ func TestVerifPersist(t *testing.T) {
 							vars = append(vars, variant{"damaged", d, version, size, 0, false})
 						}
 					}
+				}
+			}
+		}
+		// ... and the exact form of it: for every entry block, the field delta in front of the checksum moved from 2 to 3 (the
+		// checksum bytes are then read as the unused Index field) and the delta in front of the payload from 2 to 1 - the block
+		// arrives with NO checksum field - plus one flipped bit in that block's payload, at several places
+		if !light {
+			for _, hd := range vchecksumFields(clean) {
+				for rep := 0; rep < 6; rep++ {
+					span := hd.end - hd.dataAt
+					if span < 4 {
+						continue
+					}
+					off := hd.dataAt + 2 + r.intn(span-2)
+					if rep < 3 && span > 16 {
+						off = hd.end - 1 - r.intn(14) // the entries are at the tail of the payload
+					}
+					d := append([]byte(nil), clean...)
+					d[hd.sumDelta] = 3
+					d[hd.dataDelta] = 1
+					d[off] ^= 1 << uint(r.intn(7))
+					vars = append(vars, variant{"damaged", d, version, size, 0, false})
 				}
 			}
 		}
